@@ -286,6 +286,11 @@ def c03(acc):
     # skip calls issued at any later point (after text, children, end tags): spans stay ordered and within the input, no panic
     _, pk = mc_ops(acc, 3, 0, 2, "default", [], ["Inv_SkipRef"], "MC_Ops-c03skipany", skipany=True)
     replay_reader(acc, pk, "slice", extra=["--stride", 2 if q else 1])
+    # the namespace-aware reader on documents WITH declarations (also rejected ones, after valid ones): read to the end, going on
+    # after every recoverable error, every name resolved and the prefixes listed after each call - no panic
+    _, pns = mc_ns(acc, 2, 1, False, "MC_Ns-c03")
+    summ, viol, _ = harness(["ns-replay", "--file", pns, "--prop", acc.pid, "--out-dir", REPLAY_DIR])
+    acc.add_harness(summ, viol, "B:NsReader totality on documents with namespace declarations")
     # positions stay within the input when raw bytes are taken through Reader::stream() (io::Read, BufRead and the tokio traits)
     _, ps = mc_ops(acc, 2 if q else 3, 0, 0, "default", [], ["Inv_StreamTiling"], "MC_Ops-c03stream", streams=2)
     replay_reader(acc, ps, "chunks", extra=["--max-all-cuts", 0, "--stride", 3 if q else 1])
@@ -315,6 +320,9 @@ def c08(acc):
     _, ps = mc_ops(acc, 2 if q else 3, 0, 0, "four", [], ["Inv_StreamTiling"], "MC_Ops-c08stream", streams=2)
     replay_reader(acc, ps, "slice", extra=["--stride", 4 if q else 1])
     replay_reader(acc, ps, "chunks", extra=["--max-all-cuts", 0, "--stride", 16 if q else 2])
+    # a source that answers `Interrupted` now and then: positions and the written copy are those of the undisturbed run
+    _, pflt = mc_reader(acc, 2, "neutral", ["Inv_Tiling"], name="MC_Reader-c08faults")
+    replay_reader(acc, pflt, "faults")
     # the spans handed out by the skip calls (read_to_end* / read_text), issued after ANY event, tile the input together with the events' spans
     _, pk = mc_ops(acc, 3, 0, 2, "default", [], ["Inv_SkipRef"], "MC_Ops-c08skipany", skipany=True)
     replay_reader(acc, pk, "slice", extra=["--stride", 2 if q else 1])
@@ -403,6 +411,10 @@ def c04(acc):
     keys = ["cen", "aue", "eee", "tmn"]
     _, p = mc_ops(acc, 2 if q else 3, 2 if q else 2, 0, "four", keys, invs, "MC_Ops-c04")
     replay_reader(acc, p, "slice")
+    # a raw read (Reader::stream(), even of zero bytes) between two events leaves the pending synthetic End of an expanded <a/>
+    # and the open-element stack alone
+    _, pst = mc_ops(acc, 2, 0, 0, "four", [], ["Inv_ReadRef", "Inv_StreamTiling"], "MC_Ops-c04stream", streams=1)
+    replay_reader(acc, pst, "slice", extra=["--stride", 2 if q else 1])
     replay_reader(acc, p, "chunks", extra=["--max-all-cuts", 0, "--stride", 3 if q else 1])
     if q:
         mc_ops(acc, 3, 1, 0, "default", keys, invs, "MC_Ops-c04b", emit=False)
@@ -450,7 +462,7 @@ CONSTANTS
   Mode = "{mode}"
   Emit = {"TRUE" if emit else "FALSE"}
   MaxAttrs = {maxattrs}
-INVARIANTS Inv_Ends Inv_Spans Inv_HtmlOnlyAdds Inv_Dups Inv_Lists Inv_HasNil Inv_Emit
+INVARIANTS Inv_Ends Inv_Spans Inv_HtmlOnlyAdds Inv_Dups Inv_Lists Inv_HasNil Inv_Toggle Inv_Emit
 CHECK_DEADLOCK FALSE
 """
     r = tlc("MC_Attrs", cfg, name=name, timeout=2500)
@@ -689,7 +701,7 @@ def c17(acc):
     return acc.finish()
 
 
-RT_TYPES = ["F01", "F02", "F03", "F04", "F05", "F07", "F08", "F11", "F15", "F16", "F17", "F18", "F19", "F20", "F22", "F23", "F24", "F25", "F26", "F27", "F28", "F29", "F30", "F31", "F32", "F33", "F34", "F35", "F36"]
+RT_TYPES = ["F01", "F02", "F03", "F04", "F05", "F07", "F08", "F11", "F15", "F16", "F17", "F18", "F19", "F20", "F22", "F23", "F24", "F25", "F26", "F27", "F28", "F29", "F30", "F31", "F32", "F33", "F34", "F35", "F36", "F37"]
 
 
 def mc_serde(acc, types, mode, name, timeout=2500):
@@ -800,7 +812,7 @@ def c14(acc):
     # documents with comments, PIs, CDATA, DOCTYPE, references, truncation ... (valid and not): token soups and rewritten family documents
     # (4 tokens: root, an element the target skips, something ill-formed inside it: what the two entry points make of it must agree)
     _, ps = mc_de(acc, "soup", 4, ["F02"], "MC_De-c14soup")
-    de_replay(acc, ps, "soup", "B:token soups: from_str vs from_reader (piece sizes 1,2,3,7)", extra=["--sizes", "1,3" if q else "1,2,3,7"])
+    de_replay(acc, ps, "soup", "B:token soups: from_str vs from_reader (piece sizes 1,2,3,7)", extra=["--sizes", "1,2,3,7"])
     if not q:
         de_replay(acc, ps, "soup", "B:token soups, quick-xml built without overlapped-lists", extra=["--sizes", "1,3"], flavour="nool")
     _, pr = mc_de(acc, "rewrite", 1, ["F02", "F07", "F16"] if q else RT_TYPES, "MC_De-c14rw")
@@ -823,7 +835,7 @@ CONSTANTS
   Emit = {"TRUE" if emit else "FALSE"}
   SkipDoctype = {"TRUE" if skip_doctype else "FALSE"}
   Types = {{{', '.join('"%s"' % t for t in types)}}}
-INVARIANTS Inv_NoTwoTexts Inv_DeBounded Inv_RootSeqEnds Inv_RootSeqWitness Inv_Rewrite Inv_BaseReadsBack Inv_Inter Inv_ResolverRun{' Inv_Emit' if emit else ''}
+INVARIANTS Inv_NoTwoTexts Inv_DeBounded Inv_RootSeqEnds Inv_RootSeqWitness Inv_NilScope Inv_Rewrite Inv_BaseReadsBack Inv_Inter Inv_ResolverRun{' Inv_Emit' if emit else ''}
 CHECK_DEADLOCK FALSE
 """
     r = tlc("MC_De", cfg, name=name, timeout=timeout, xss="512m")
@@ -868,11 +880,15 @@ def c07(acc):
     de_replay(acc, pn, "soup", "B:content under xsi:nil x all target types", extra=sch)
     # the event-buffer limit (Deserializer::event_buffer_size) on documents whose list items are interleaved, also on two levels:
     # whatever the limit, a value or an error - never a panic (the error path of one access and the Drop of another cooperate)
-    _, pil = mc_de(acc, "interleave", 1, ["F22", "F23", "F26", "F29", "F33", "F34", "F35", "F36"], "MC_De-inter-c07")
+    _, pil = mc_de(acc, "interleave", 1, ["F22", "F23", "F26", "F29", "F33", "F34", "F35", "F36", "F37"], "MC_De-inter-c07")
     de_replay(acc, pil, "interleave", "B:interleaved list documents x every event-buffer limit: no panic")
     _, p2 = mc_de(acc, "rewrite", 1, ["F05", "F15", "F22"] if q else RT_TYPES, "MC_De-bases", timeout=3000)
     summ, viol, _ = harness(["de-mutate", "--file", p2, "--prop", acc.pid, "--out-dir", REPLAY_DIR, "--seed", SEED, "--per-doc", 3 if q else 20])
     acc.add_harness(summ, viol, "C:token-level mutations and every-byte truncations of serialized values")
+    # the `encoding` build: documents that DECLARE a single-byte encoding, with its letters in element and attribute names of
+    # every length (keys are decoded into a reused buffer), through from_reader
+    summ, viol, _ = harness(["de-mutate", "--file", p2, "--prop", acc.pid, "--out-dir", REPLAY_DIR, "--seed", SEED, "--per-doc", 1], enc=True)
+    acc.add_harness(summ, viol, "C:the same on the encoding build + documents that declare a single-byte encoding")
     return acc.finish()
 
 
@@ -914,7 +930,7 @@ def c20(acc):
                 "document deserialized without limit (must equal the value) and with event_buffer_size = 1..total+1: the value or TooManyEvents, TooManyEvents "
                 "whenever Held > limit, monotone in the limit. non-trivial = interleavings that need buffering")
     acc.trusted = SERDE_TRUST
-    _, p = mc_de(acc, "interleave", 1, ["F22", "F23", "F26", "F29", "F33", "F34", "F35", "F36"], "MC_De-inter")
+    _, p = mc_de(acc, "interleave", 1, ["F22", "F23", "F26", "F29", "F33", "F34", "F35", "F36", "F37"], "MC_De-inter")
     de_replay(acc, p, "interleave", "B:interleavings x buffer limits")
     return acc.finish()
 
